@@ -219,14 +219,18 @@ func (cmd Generate) Run(ctx context.Context) (err error) {
 		defer close(postGeneration)
 		cmd.Log.Debug("Starting event handler")
 		for event := range events {
+			verifEmit("event", event.Name)
 			eventsWG.Add(1)
 			sem <- struct{}{}
 			go func(event fsnotify.Event) {
 				cmd.Log.Debug("Processing file", slog.String("file", event.Name))
 				defer eventsWG.Done()
 				defer func() { <-sem }()
+				defer verifEmit("end", event.Name)
+				verifEmit("start", event.Name)
 				r, err := fseh.HandleEvent(ctx, event)
 				if err != nil {
+					verifEmit("error", event.Name)
 					errs <- err
 				}
 				if !(r.GoUpdated || r.TextUpdated) {
@@ -240,11 +244,13 @@ func (cmd Generate) Run(ctx context.Context) (err error) {
 					TextUpdated: r.TextUpdated,
 				}
 				cmd.Log.Debug("File updated", slog.String("file", event.Name))
+				verifEmit("post", event.Name)
 				postGeneration <- e
 			}(event)
 		}
 		// Wait for all events to be processed before closing.
 		eventsWG.Wait()
+		verifEmit("workers-done", "")
 	}()
 
 	// Start process to handle post-generation events.
@@ -263,6 +269,7 @@ func (cmd Generate) Run(ctx context.Context) (err error) {
 			case ge := <-postGeneration:
 				if ge == nil {
 					cmd.Log.Debug("Post-generation event channel closed, exiting")
+					verifEmit("close-errs", "")
 					return
 				}
 				goUpdated = goUpdated || ge.GoUpdated
@@ -327,6 +334,7 @@ func (cmd Generate) Run(ctx context.Context) (err error) {
 	}
 
 	// Wait for everything to complete.
+	verifEmit("errs-drained", "")
 	cmd.Log.Debug("Waiting for push handler to complete")
 	pushHandlerWG.Wait()
 	cmd.Log.Debug("Waiting for event handler to complete")
